@@ -1577,6 +1577,15 @@ class Engine:
         raise Unsupported("call of %s (no contract, not a builtin)" % name)
 
     def apply_uf(self, fn, args):
+        if self.concrete and fn.name() == "OPSUM" and isinstance(args[0], int) and \
+                getattr(self, "concrete_oplist", None) is not None:
+            # cross-check mode: the running sum over the concrete operation list, by its definition
+            tot = ZR(0)
+            dummy = State()
+            for j in range(args[0]):
+                tot = simp(tot + ZR(self.builtin_op_cost([RowRef(self.concrete_oplist, j, None)] + list(args[1:]),
+                                                         {}, dummy, None)))
+            return tot
         if self.concrete and fn.name() == "CNT" and isinstance(args[1], int):
             lst, k, v = args
             code = v.code if isinstance(v, EnumV) else v
